@@ -449,7 +449,7 @@ int main(int argc, char** argv) {
   mi_register_output(&on_output, NULL);
   mi_register_error(&on_error, NULL);
   signal(SIGALRM, on_alarm);
-  alarm(thorough ? 600 : 120);
+  alarm(thorough ? 300 : 30);
   printf("T cfg secure=%d debug=%d padding=%d encode=1 pad_size=%d\n", (int)MI_SECURE, (int)MI_DEBUG, (int)MI_PADDING, (int)MI_PADDING_SIZE);
   printf("F const PAD = %d\n", (int)MI_PADDING_SIZE);
   printf("F const DBG_UNINIT = %d\n", (int)MI_DEBUG_UNINIT);
@@ -477,15 +477,15 @@ int main(int argc, char** argv) {
     printf("F rotl %llu %llu = %llu\n", U(p), U(keys[0]), U(mi_rotl(p, keys[0])));
     printf("F rotr %llu %llu = %llu\n", U(p), U(keys[0]), U(mi_rotr(p, keys[0])));
   }
+  // T: API-level episodes (the consistency-after-error clause only in the secure build)
+  int nt = thorough ? 1500 : 240;
+  for (int ep = 0; ep < nt; ep++) t_episode(&g, ep, ep % 3, SECURE_BUILD);
   // F: page-level episodes
   int nf = thorough ? 240 : 45;
   for (int ep = 0; ep < nf; ep++) {
     g_stage = "f";
     f_episode(&g, ep, f_classes[(size_t)ep % NF_CLASSES], 25 + (int)prng_below(&g, thorough ? 120 : 50), ep % 4 != 0);
   }
-  // T: API-level episodes (the consistency-after-error clause only in the secure build)
-  int nt = thorough ? 1500 : 240;
-  for (int ep = 0; ep < nt; ep++) t_episode(&g, ep, ep % 3, SECURE_BUILD);
   printf("END\n");
   return 0;
 }
